@@ -19,6 +19,7 @@ import (
 	"sort"
 	"strings"
 	"sync"
+	"syscall"
 	"time"
 )
 
@@ -164,6 +165,7 @@ func diffTrees(a, b map[string]treeEntry) []string {
 }
 
 type cliRun struct {
+	Fifo   []byte // bytes read from the FIFO at -out (fifo mode)
 	Args   []string
 	Exit   int
 	Stdout []byte
@@ -250,6 +252,9 @@ func (fx *Fixture) newSandbox(work string, version int) *e5Sandbox {
 	writeFile(filepath.Join(pkg, "outdir.tmp"), "bystander\n")
 	writeFile(filepath.Join(pkg, "sub", "t.go"), cliSub)
 	writeFile(filepath.Join(pkg, "notes.txt"), "not a go file\n")
+	// a directory named like a -pkg value that `go list` cannot load (a nested module with an empty go.mod)
+	writeFile(filepath.Join(pkg, "other", "go.mod"), "")
+	writeFile(filepath.Join(pkg, "other", "keep.txt"), "keep\n")
 	return &e5Sandbox{fx: fx, root: root, pkg: pkg}
 }
 
@@ -278,7 +283,7 @@ var badArgs = []struct{ arg, why string }{
 
 func e5Cases(thorough bool) []e5Case {
 	var out []e5Case
-	flagSets := [][]string{{}, {"-stub", "-with-resets"}, {"-skip-ensure", "-fmt", "noop"}, {"-pkg", "cli_test", "-fmt", "goimports"}}
+	flagSets := [][]string{{}, {"-stub", "-with-resets"}, {"-skip-ensure", "-fmt", "noop"}, {"-pkg", "cli_test", "-fmt", "goimports"}, {"-pkg", "other", "-stub"}}
 	outModes := []string{"", "new", "existing", "deep", "parent-file", "dir", "dir-nonempty"}
 	good := []string{"A", "B", "G", "E"}
 	for _, om := range outModes {
@@ -337,6 +342,11 @@ func e5Cases(thorough bool) []e5Case {
 			out = append(out, e5Case{Desc: "from module root, bad argument", Version: 1, OutMode: "from-root", Rm: rm, Flags: fl, SrcDir: "./s/cli", Ifaces: []string{"A", "Nope"}, ExpectFail: true, Why: "unknown type name"})
 		}
 	}
+	// -out names a FIFO with a reader on the other end: moq must write the file and exit
+	for _, fl := range flagSets[:2] {
+		out = append(out, e5Case{Desc: "-out is a named pipe with a reader", Version: 1, OutMode: "fifo", Flags: fl, SrcDir: ".", Ifaces: []string{"A", "B"}, ExpectFail: false})
+		out = append(out, e5Case{Desc: "-out is a named pipe, bad argument", Version: 1, OutMode: "fifo", Flags: fl, SrcDir: ".", Ifaces: []string{"A", "Nope"}, ExpectFail: true, Why: "unknown type name"})
+	}
 	// a bad argument whose mock name repeats the mock name of an earlier good argument
 	for _, ifs := range [][]string{{"A", "Nope:AMock"}, {"A:Custom", "Nope:Custom"}, {"A", "B", "S:BMock"}, {"A:M1", "B:M2", "Nope:M1"}} {
 		for _, om := range []string{"", "new", "existing"} {
@@ -391,6 +401,9 @@ func (c *e5Case) prepare(sb *e5Sandbox) (outArg string, outAbs string) {
 	case "dir-nonempty":
 		outArg = "outdir"
 		writeFile(filepath.Join(sb.pkg, outArg, "keep.txt"), "keep")
+	case "fifo":
+		outArg = "out_fifo"
+		must(syscall.Mkfifo(filepath.Join(sb.pkg, outArg), 0o600))
 	case "from-root":
 		outArg = filepath.Join("gen", "m_moq.go")
 		return outArg, filepath.Join(sb.root, outArg)
@@ -491,6 +504,10 @@ func (c *e5Case) judge(sb *e5Sandbox, before, after map[string]treeEntry, r cliR
 		if outAbs == "" {
 			if !bytes.Equal(r.Stdout, reference) {
 				add("C17", "cli: stdout of a successful run is not exactly the generated file", "")
+			}
+		} else if c.OutMode == "fifo" {
+			if reference != nil && !bytes.Equal(r.Fifo, reference) {
+				add("C17", "cli: bytes written to the -out FIFO differ from the generation written to standard output", fmt.Sprintf("%d vs %d bytes", len(r.Fifo), len(reference)))
 			}
 		} else if outAbs != "/dev/full" {
 			got, err := os.ReadFile(outAbs)
